@@ -753,6 +753,9 @@ fn is_retryable_error(err: &RepeError) -> bool {
                 | std::io::ErrorKind::ConnectionRefused
                 | std::io::ErrorKind::ConnectionReset
                 | std::io::ErrorKind::ConnectionAborted
+                // a cached client whose connection died while idle fails its
+                // next write with `BrokenPipe`
+                | std::io::ErrorKind::BrokenPipe
                 | std::io::ErrorKind::NotConnected
                 | std::io::ErrorKind::UnexpectedEof
                 | std::io::ErrorKind::WouldBlock
